@@ -13,7 +13,7 @@ args = [a for a in sys.argv[1:] if not a.startswith('--')]
 quick = '--quick' in sys.argv
 path = os.path.join(K.KDIR, 'harnesses.json')
 allh = json.load(open(path))
-sel = [h for h in allh if not h.get('disabled') and (not args or h['property'] in args) and (not quick or h.get('tier', 'quick') == 'quick')]
+sel = [h for h in allh if not h.get('disabled') and h.get('tier') != 'cex' and (not args or h['property'] in args) and (not quick or h.get('tier', 'quick') == 'quick')]
 by_mode = {'dbg': [], 'rel': []}
 for h in sel:
     m = h.get('mode', 'dbg')
